@@ -2,6 +2,7 @@ import ComposeVerif.Lemmas.C01Stages
 import ComposeVerif.Lemmas.C01Dep
 import ComposeVerif.Lemmas.C01Inc
 import ComposeVerif.Lemmas.C01Ext
+import ComposeVerif.Lemmas.C01Reset
 /-!
 # C01 — loading is total: a project or an error, never a crash or a hang
 
@@ -163,6 +164,63 @@ example : Inc.SinglePath [("a.yml", [["b.yml"]]), ("b.yml", [["a.yml"]])] := by
     · cases hl; simp only [List.mem_singleton] at he; subst he; decide
     · cases hl
 example : Inc.loadModel [("a.yml", [["b.yml"]]), ("b.yml", [["a.yml"]])] 3 ["a.yml"] [] = .err "includeCycle" := by decide
+
+/-! ## a referenced file that is missing is an error naming the reference, never skipped -/
+
+/-- a compose file (top-level or included) that cannot be read is an error, whatever follows it -/
+theorem include_missing_file_err (fs : Inc.FS) (f : String) (rest inc : List String) (fuel : Nat)
+    (h : Inc.lookup f fs = none) : Inc.loadModel fs (fuel + 1) (f :: rest) inc = .err "fileNotFound" := by
+  unfold Inc.loadModel Inc.loadFiles
+  rw [h]
+
+/-- `extends: {file: f, service: r}` with `f` absent is an error, for any service, tracker and fuel -/
+theorem extends_missing_file_err (fs : Ext.FS) (main : String) (svcs : Ext.Services) (name ref f : String)
+    (tr : Tracker) (fuel : Nat)
+    (hs : Ext.lookup name svcs = some (.ext (.map (.str ref) (.str f)))) (hf : Ext.lookup f fs = none) :
+    (Ext.resolve fs main (fuel + 1) svcs name tr).1 = .err "fileNotFound" := by
+  unfold Ext.resolve
+  rw [hs]
+  simp only [Ext.locate, Ext.parse, hf]
+
+example : Ext.lookup "a" [("a", Ext.Svc.ext (.map (.str "b") (.str "gone.yml")))] = some (.ext (.map (.str "b") (.str "gone.yml"))) ∧
+    Ext.lookup "gone.yml" ([] : Ext.FS) = none := by decide
+
+/-! ## YAML alias expansion (`ResetProcessor.resolveReset`) -/
+
+/-- `alias_resolution_total_partial`: on every node arena whose child and alias edges are well-founded (some
+rank decreases along them: no alias reaches a node that encloses it), alias expansion returns — with any tags,
+any paths, any sharing — as soon as the fuel exceeds the rank of the root.  Without the hypothesis the
+statement is false: `Neg.alias_resolution_total_false` (`&x {<<: *x}`). -/
+theorem alias_resolution_total_partial (rk : Nat → Nat) (arena : List Reset.Node) (root : Nat)
+    (hr : Reset.Ranked rk arena) (fuel : Nat) (hf : rk root < fuel) :
+    Reset.run arena root fuel ≠ .error .outOfFuel := by
+  unfold Reset.run
+  have h := Reset.resolve_post rk fuel { arena := arena, visited := [], paths := [] } root [] hr hf
+  revert h
+  cases Reset.resolve fuel { arena := arena, visited := [], paths := [] } root [] with
+  | error e =>
+    intro h
+    simp only [Reset.Post] at h
+    intro he
+    cases he
+    exact h rfl
+  | ok pr => intro _ he; cases he
+
+/-- non-vacuity: `{a: &x {k: !reset v}, b: *x}` is ranked, and expands (recording the reset once per visit path) -/
+example : Reset.Ranked (fun n => match n with | 0 => 3 | 1 => 1 | 3 => 2 | _ => 0)
+    [.map "" [("a", 1), ("b", 3)], .map "" [("k", 2)], .scalar "!reset", .alias 1] := by
+  intro n node h
+  match n with
+  | 0 => simp at h; subst h; simp [Reset.NodeOk]
+  | 1 => simp at h; subst h; simp [Reset.NodeOk]
+  | 2 => simp at h; subst h; simp [Reset.NodeOk]
+  | 3 => simp at h; subst h; simp [Reset.NodeOk]
+  | k + 4 => simp at h
+example : Reset.run [.map "" [("a", 1), ("b", 3)], .map "" [("k", 2)], .scalar "!reset", .alias 1] 0 4 = .ok [["a", "k"]] := by
+  rfl
+
+/-- a plain self reference is reported as a cycle (evaluated): `{a: &x {k: *x}}` -/
+example : Reset.run [.map "" [("a", 1)], .map "" [("k", 2)], .alias 1] 0 6 = .error .cycle := by rfl
 
 /-! ## depends_on -/
 
